@@ -67,6 +67,9 @@ pub fn queries(tier: Tier) -> Vec<GenQuery> {
         "age / 2 AS h",
         "city || 'x' AS cx",
         "coalesce(age, 0) AS ca",
+        // several WHEN branches whose conditions overlap; an earlier branch gives the same result as ELSE
+        "CASE WHEN age > 19 THEN 0 WHEN age > 17 THEN 1 ELSE 0 END AS c3, id",
+        "CASE WHEN id = 1 THEN 'x' WHEN age > 19 THEN 'y' WHEN id < 3 THEN 'x' ELSE 'y' END AS c4",
     ];
     let user_preds: Vec<&str> = vec![
         "",
@@ -206,9 +209,12 @@ pub fn queries(tier: Tier) -> Vec<GenQuery> {
         ("id, age", "age + id", Order::Partial),
     ];
     for (items, ob, ord) in &orderings {
-        for (lim, tag) in [("", "nolimit"), (" LIMIT 2", "limit"), (" LIMIT 1 OFFSET 1", "offset"), (" LIMIT 0", "limit0"), (" OFFSET 2", "offsetonly"), (" LIMIT 5 OFFSET 4", "offsetbig")] {
-            if !thorough && !matches!(tag, "nolimit" | "limit" | "offset" | "limit0") {
+        for (lim, tag) in [("", "nolimit"), (" LIMIT 2", "limit"), (" LIMIT 1 OFFSET 1", "offset"), (" LIMIT 2 OFFSET 1", "offset-window2"), (" LIMIT 0", "limit0"), (" OFFSET 2", "offsetonly"), (" LIMIT 5 OFFSET 4", "offsetbig")] {
+            if !thorough && !matches!(tag, "nolimit" | "limit" | "offset" | "limit0" | "offset-window2") {
                 continue;
+            }
+            if tag == "offset-window2" && *ob == "age DESC, id" {
+                continue; // ORDER BY a column that is not selected: a known finding of C08 for every window already
             }
             let mut g = q(format!("SELECT {items} FROM users ORDER BY {ob}{lim}"), &["users"], &["orderby", tag]);
             g.order = ord.clone();
